@@ -152,6 +152,57 @@ def shortcut_table(rep, F, rule='R-TABLE'):
     return n
 
 
+def kernel_table(rep, F, rule='R-TABLE'):
+    """the three decimal / decimal kernels (owned/owned, owned/ref, ref/ref): every non-panicking path is one of
+         x == 0 or y == 1            -> x                         (exact)
+         x.int_val == y.int_val      -> 1 at scale(x) - scale(y)  (same signed digits: the quotient of the values is 10^-(sx-sy))
+         otherwise                   -> impl_division(x.int_val, &y.int_val, scale(x) - scale(y), DEFAULT_PRECISION)
+       a shortcut whose test is not the equality of the two signed integers (e.g. of their magnitudes) returns +1 for -x/x"""
+    n = 0
+    for fn in F.real_fns():
+        if fn.is_closure or fn.trait != 'std::ops::Div' or fn.argc != 2 or not (KERNEL_SELF.match(fn.ty(1)) and KERNEL_SELF.match(fn.ty(2))):
+            continue
+        if not any(re.search(r'impl_division$', t['callee'].get('resolved') or '') for b, t in fn.calls()):
+            continue          # forwarders
+        try:
+            paths = TB.PathEnum(F, fn, max_paths=64).run()
+        except TB.Undecided as e:
+            rep.undecided(rule, fn.key + ':kernel-table', str(e), fn.where())
+            continue
+        n += 1
+        probs = []
+        for atoms, out in paths:
+            nf = TB.show(TB.strip_refs(out))
+            if nf.startswith("('panic'"):
+                continue
+            strs = [(TB.show(TB.strip_refs(a[0])), not (a[1] == ('eq', 0))) for a in atoms]
+            known = {'is_zero(arg2)', 'is_zero(arg1)', 'is_one(arg2)', 'Eq(arg1.int_val,arg2.int_val)', 'Eq(arg2.int_val,arg1.int_val)'}
+            extra = [st for st, tv in strs if st not in known]
+            if nf in ('arg1', 'clone(arg1)'):
+                if not any(st in ('is_zero(arg1)', 'is_one(arg2)') and tv for st, tv in strs):
+                    probs.append('the numerator is returned unchanged on a path that established neither x == 0 nor y == 1')
+                continue
+            m1 = re.match(r'^BigDecimal::BigDecimal\((?:into|from)\((-?\d+)\),(.*)\)$', nf) or re.match(r'^(?:new|from_bigint)\((?:into|from)\((-?\d+)\),(.*)\)$', nf)
+            if m1:
+                eq = [st for st, tv in strs if st.startswith('Eq(') and tv]
+                if m1.group(1) != '1' or m1.group(2) != 'Sub(arg1.scale,arg2.scale)':
+                    probs.append('the equal-digits shortcut must return 1 at scale(x) - scale(y); it returns %s' % nf[:80])
+                elif not any(st in ('Eq(arg1.int_val,arg2.int_val)', 'Eq(arg2.int_val,arg1.int_val)') for st in eq):
+                    probs.append('the shortcut returning +1 is not guarded by the equality of the two signed integers (guards: %s): operands of opposite sign with equal digits would divide to +1' % ([st for st, tv in strs if tv and st not in ('is_zero(arg2)',)][:2]))
+                continue
+            if re.match(r'^impl_division\((clone\()?arg1\.int_val\)?,arg2\.int_val,Sub\(arg1\.scale,arg2\.scale\),\d+\)$', nf):
+                if extra:
+                    probs.append('general path taken under an unrecognised test %s' % extra[0][:60])
+                continue
+            probs.append('unrecognised outcome %s' % nf[:90])
+        key = fn.key + ':kernel-table'
+        if probs:
+            rep.violation(rule, key, probs[0], fn.where())
+        else:
+            rep.ok(rule, key, '%d paths: zero/one shortcuts return x, equal signed digits give 1 at the scale difference, otherwise impl_division(x.int_val, &y.int_val, sx - sy, DEFAULT_PRECISION)' % len(paths), fn.where())
+    return n
+
+
 def run(ctx):
     rep = ctx.rep
     rep.explanation = ('Static MIR analysis (no bigdecimal code is executed). R-GUARD: for every Div/DivAssign impl whose divisor is an integer, BigInt or '
@@ -169,6 +220,8 @@ def run(ctx):
     R.default_ops(rep, F, F._prov)
     rep.obs = rep.obs[:before] + [o for o in rep.obs[before:] if 'impl_division' in o['key']]
     ns = shortcut_table(rep, F)
+    nk = kernel_table(rep, F)
+    rep.floor('decimal/decimal kernels', nk, 3)
     # scale bookkeeping of the division kernel: the digits and the scale stay in step through both loops
     from rules import scale
     from props import exact
